@@ -46,6 +46,13 @@ func c19Write(c *fw.Case) {
 	rng := c.Rng
 	rows := 1 + rng.Intn(40)
 	o := model.GenOpts{Rows: rows, MinCols: 1, MaxCols: 5, NoCR: false, ID: rng.Intn(2) == 0, Names: []string{"a", "b", "c", "COL1", "x y", "é", "n1", "Sum", "growth%", "%d", "a%sb", "100%%", "%!d(MISSING)"}, IDName: "rowid"}
+	if c.No%40 == 12 {
+		// long frames: more rows than a writer would put into one block or batch, not a multiple of the usual sizes
+		o.Rows = []int{257, 1000, 1025, 1500, 2049, 3000}[rng.Intn(6)]
+		o.MinCols, o.MaxCols = 1, 3
+		o.Kinds = []model.Kind{model.KInt, model.KBool, model.KFloat}
+		o.NoNull, o.SmallInts = true, true
+	}
 	if c.No%16 == 6 {
 		// wide frames: placeholder numbers with two digits
 		o.MinCols, o.MaxCols = 10, 14
